@@ -76,7 +76,7 @@ def main(argv=None):
     seed = int(os.environ.get('VERIF_SEED', '0') or 0)
     t0 = time.time()
     mod, units, reg = load_units(prop)
-    sel = [u for u in units if (a.tier == 'thorough' or u.tier == 'quick')]
+    sel = [u for u in units if (a.tier == 'thorough' or u.tier == 'quick') and u.kind != 'assumed']
     if a.unit:
         sel = [u for u in sel if u.name in a.unit]
     outroot = os.path.join(VERIF, 'out', prop)
